@@ -486,8 +486,10 @@ class XMLSchemaConverter(NamespaceMapper):
                         content.append((ns_name, value))
                     else:
                         content.extend((ns_name, item) for item in value)
-                elif self.attr_prefix == '' and ns_name in xsd_element.attributes:
-                    attributes[ns_name] = value
+                elif self.attr_prefix == '' and \
+                        (attr_name := self.unmap_qname(name, xsd_element.attributes)) \
+                        in xsd_element.attributes:
+                    attributes[attr_name] = value
                 else:
                     content.extend((ns_name, item) for item in value)
 
